@@ -338,6 +338,17 @@ class Check:
 
     def violation(self, replay_obj, no_input=False, tag=None):
         os.makedirs(REPLAYS, exist_ok=True)
+        cs = sys.modules.get("conv_stream")
+        if cs is not None and getattr(cs, "HISTORY_DEVIANTS", None):
+            replay_obj = dict(replay_obj, converter_history={
+                "cfg": cs.HISTORY_DEVIANTS[0][0],
+                "meaning": "some results of this run were observed on a converter with another past or configuration (lib/conv_cfg.py): "
+                           "'after-foreign' = a DEFAULT get_converter() created after a customised user converter (forbid_extra_keys, "
+                           "omit_if_default, own enum / Position hooks) and same-named application classes went through the package's hooks in the "
+                           "same process; 'user-omit' = get_converter(cattrs.Converter(omit_if_default=True)); 'nodetail' = "
+                           "get_converter(cattrs.Converter(detailed_validation=False)).  The plain default converter gives a different result on these inputs",
+                "affected_inputs": [{"cfg": g, "target": t, "input": i} for g, t, i in cs.HISTORY_DEVIANTS[:5]],
+                "how_to_replay": "./check <id> --replay <this file> re-runs the input under the recorded configuration (VERIF_CONV_CFG=<cfg>)"})
         body = json.dumps(replay_obj, indent=1, sort_keys=True, default=str)
         h = hashlib.sha1(body.encode()).hexdigest()[:10]
         path = os.path.join(REPLAYS, "%s-%s%s.json" % (self.prop, (tag + "-") if tag else "", h))
